@@ -77,6 +77,11 @@ CHECKS = {
     text="TLC checks over every frame of <=2 (thorough 3) menu rows, both symbol-table modes and every sequence of <=2 filters: Selection, FoldMeaning, Idempotent and Commute for row-local filters, and exhibits the frame on which the position-based iteration filter does not commute (MC_Filters_iteridx.cfg); 150/2000 generated frames in three name representations x 8 applications (single, twice, both orders, composites/nested of 2-3 members) go through the real filter classes; TLC compares the returned ids, order and per-row content hashes with Composite(fs, frame) and checks the input is unmodified.",
     note="Pattern matching through the committed NameTable.tla; content equality through a harness-computed hash over all columns. " + TB,
     ref="DESIGN.md section 5 (C18)"),
+ "C11": dict(
+    technique="TLA+ symbol-table and multi-rank loading model (MC_SymbolTable: all numberings, queue interleavings, worker completion orders) checked by TLC + TLC-simulated operation histories replayed into TraceSymbolTable and validated step by step + TLC trace validation of loads under several hash seeds / pool modes / forced schedules / renumberings (Trace_SymbolTable)",
+    text="TLC checks Bijection in every state, the action property that ids never change, and DecodeAfterLoad for every permutation of every rank's local numbering, every worker finishing order and 3 ranks over a 3-symbol vocabulary; TLC-simulated histories of add_symbols / add_symbols_mp / clone / combine are executed on the real class and every recorded step must be a step the spec allows (for add_symbols_mp: some order-preserving interleaving), with sym_index inverting sym_table; 24/200 generated rank-file sets are loaded in separate interpreters under PYTHONHASHSEED 0-3, pool on/off, forward/backward forced completion (HTA_VERIF hook), and after random renumbering: decoded strings must equal the file's, and digests of frames and of nine analysis outputs must coincide.",
+    note="'Every hash seed' = all numberings in the model + four real seeds + random renumberings; output equality through harness-computed digests (order-sensitive). " + TB,
+    ref="DESIGN.md section 5 (C11)"),
 }
 
 NOT_YET = {}
